@@ -19,6 +19,13 @@ E2: bounded exhaustive input enumeration, five families.
              lazily parsed file, compressed file), every ordered pair of a 7-structure palette, with and
              without a read in between; oracle = a fresh object that only saw the last structure;
              refused calls must leave the object unchanged.
+  * flavour: one-factor families with differential oracles: array flavours of every annotation / coord /
+             box (other widths, float64, non-contiguous, Fortran, read-only, lists, object), input aliasing
+             (argument unchanged; file independent of later changes of the argument and of the returned
+             structure), argument types of get_structure, all-empty string columns and empty stacks,
+             9/10/11 and 99/100/101 models / chains / residues, every order of the atoms of a residue and of
+             four residues of two chains, rotated / permuted / left-handed boxes, every subset of categories
+             forced on a lazily parsed file, refused get_structure calls.
   * big    : chains of 1250-66000 hetero residues whose (struct_conn rows x atoms) product lies on both
              sides of the reader's 4 000 000 switch between dense and dictionary partner matching.
 Every written file with bonds is also inspected row by row (struct_conn / chem_comp_bond rows must be
@@ -2156,6 +2163,472 @@ def reuse_cases(tier, seed):
                 yield {"fam": "reuse", "kind": "refuse", "first": a, "refusal": r, "new_block": nb, "pal": pal}
 
 
+# ---- 'flavour': aliasing, array flavours, many items, order, laziness, error paths ------------------
+def _snapshot(a):
+    """Everything observable of a structure incl. dtypes and writability (argument-unchanged checks)."""
+    o = observe(a)
+    o["dtypes"] = {c: str(a.get_annotation(c).dtype) for c in a.get_annotation_categories()}
+    o["flags"] = {c: bool(a.get_annotation(c).flags.writeable) for c in a.get_annotation_categories()}
+    return json.dumps(o, sort_keys=True, default=str)
+
+
+def _mutate_in_place(a):
+    """Change every array of a structure in place (not by assignment)."""
+    a.coord += 1.0
+    for c in a.get_annotation_categories():
+        arr = a.get_annotation(c)
+        if arr.dtype == bool:
+            arr[:] = ~arr
+        elif np.issubdtype(arr.dtype, np.number):
+            arr += 1
+        else:
+            arr[:] = "Q"
+    if a.box is not None:
+        a.box *= 2.0
+    if a.bonds is not None and a.array_length() > 1:
+        a.bonds.add_bond(0, a.array_length() - 1, 3)
+        a.bonds.remove_bond(0, 1)
+
+
+def _same(x, y):
+    return json.dumps(x, sort_keys=True, default=str) == json.dumps(y, sort_keys=True, default=str)
+
+
+def _first_diff(x, y):
+    """Name of the first differing part of two _reads() results."""
+    for k, (p, q) in enumerate(zip(x, y)):
+        if _same(p, q):
+            continue
+        if p[0] != q[0]:
+            return "outcome"
+        for f in ("kind", "n", "depth", "annot", "coord", "bonds", "box"):
+            if not _same(p[1].get(f), q[1].get(f)):
+                if f == "annot":
+                    for c in sorted(set(p[1]["annot"]) | set(q[1]["annot"])):
+                        if not _same(p[1]["annot"].get(c), q[1]["annot"].get(c)):
+                            return "annot:" + c
+                return f
+    return None
+
+
+FLAVOURS = {
+    # name: (target, how the array is re-made)
+    "coord_float64": ("coord", lambda x: x.astype(np.float64)),
+    "coord_noncontiguous": ("coord", lambda x: np.repeat(x, 2, axis=-1)[..., ::2]),
+    "coord_fortran": ("coord", lambda x: np.asfortranarray(x)),
+    "coord_readonly": ("coord", lambda x: _ro(x.copy())),
+    "box_float64": ("box", lambda x: x.astype(np.float64)),
+    "box_noncontiguous": ("box", lambda x: np.repeat(x, 2, axis=-1)[..., ::2]),
+    "box_readonly": ("box", lambda x: _ro(x.copy())),
+    "res_id_int32": ("res_id", lambda x: x.astype(np.int32)),
+    "res_id_int16": ("res_id", lambda x: x.astype(np.int16)),
+    "res_id_noncontiguous": ("res_id", lambda x: np.repeat(x, 2)[::2]),
+    "res_id_readonly": ("res_id", lambda x: _ro(x.copy())),
+    "res_id_list": ("res_id", lambda x: [int(v) for v in x]),
+    "chain_id_object": ("chain_id", lambda x: x.astype(object)),
+    "chain_id_wide": ("chain_id", lambda x: x.astype("U12")),
+    "chain_id_noncontiguous": ("chain_id", lambda x: np.repeat(x, 2)[::2]),
+    "chain_id_readonly": ("chain_id", lambda x: _ro(x.copy())),
+    "atom_name_list": ("atom_name", lambda x: [str(v) for v in x]),
+    "atom_name_object": ("atom_name", lambda x: x.astype(object)),
+    "res_name_readonly": ("res_name", lambda x: _ro(x.copy())),
+    "element_noncontiguous": ("element", lambda x: np.repeat(x, 2)[::2]),
+    "ins_code_readonly": ("ins_code", lambda x: _ro(x.copy())),
+    "hetero_uint8": ("hetero", lambda x: x.astype(np.uint8)),
+    "hetero_list": ("hetero", lambda x: [bool(v) for v in x]),
+    "hetero_readonly": ("hetero", lambda x: _ro(x.copy())),
+    "atom_id_int32": ("atom_id", lambda x: x.astype(np.int32)),
+    "atom_id_uint16": ("atom_id", lambda x: x.astype(np.uint16)),
+    "b_factor_float32": ("b_factor", lambda x: x.astype(np.float32)),
+    "b_factor_readonly": ("b_factor", lambda x: _ro(x.copy())),
+    "occupancy_float32": ("occupancy", lambda x: x.astype(np.float32)),
+    "occupancy_noncontiguous": ("occupancy", lambda x: np.repeat(x, 2)[::2]),
+    "charge_int8": ("charge", lambda x: x.astype(np.int8)),
+    "charge_list": ("charge", lambda x: [int(v) for v in x]),
+    "charge_readonly": ("charge", lambda x: _ro(x.copy())),
+    "extra_object": (EXTRA_NAME, lambda x: x.astype(object)),
+    "extra_readonly": (EXTRA_NAME, lambda x: _ro(x.copy())),
+}
+LENIENT_FLAVOURS = ("chain_id_object", "atom_name_object", "extra_object")  # object dtype: refusal is fine
+
+
+def _ro(x):
+    x.flags.writeable = False
+    return x
+
+
+def flavour_base(stack, pal_i):
+    devs = [["box", None, "tric"], ["atom_id", None, "rev"], ["b_factor", None, "vals"], ["occupancy", None, "vals"],
+            ["charge", None, "vals"], ["extra", None, "plain"], ["bonds", None, "path"]]
+    if stack:
+        devs = [["models", None, 2]] + devs
+    spec = apply_devs(ROPT_SKEL, PALETTES[pal_i], devs)
+    spec["opt"]["b_factor"] = [0.0, -1.0, 999.5, 12.5]  # exact in float32
+    return spec
+
+
+def flavoured(spec, name):
+    """The structure of `spec` with one array re-made in another flavour, through the public API."""
+    a = build(spec)
+    target, fn = FLAVOURS[name]
+    if target == "coord":
+        a.coord = fn(a.coord)
+    elif target == "box":
+        a.box = fn(a.box)
+    else:
+        arr = fn(a.get_annotation(target))
+        a.del_annotation(target)
+        a.set_annotation(target, arr)
+    return a
+
+
+def _put_struct(target, a, spec, block_name=None):
+    from biotite.structure.io import pdbx
+
+    pdbx.set_structure(target, a, data_block=block_name, include_bonds=spec["bonds"] is not None,
+                       extra_fields=[EXTRA_NAME] if spec["extra"] is not None else [])
+
+
+def flavour_case(ctx, case):
+    """case = {"fam": "flavour", "sub": ..., ...}; every sub-family compares with a plain reference
+    (same structure built the plain way / fresh object / unforced file), no new expected values."""
+    from biotite.structure.io import pdbx
+
+    if not ctx.journal(json.dumps(case)):
+        return
+    sub = case["sub"]
+    found = {}
+
+    def hit(flavour, failure, cls, e, o):
+        ent = found.setdefault((failure, cls), {"fmts": [], "e": e, "o": o})
+        if flavour not in ent["fmts"]:
+            ent["fmts"].append(flavour)
+
+    unspecified = [False]
+    with warnings.catch_warnings():
+        warnings.simplefilter("ignore")
+        for flavour in ("cif", "bcif"):
+            File, Block = _classes(flavour)
+            if sub == "dtype":
+                spec = flavour_base(case["stack"], case["pal"])
+                fields = _fields(None, spec)
+                ref = File()
+                _put(ref, spec)
+                ref_reads = _reads(_load(flavour, _dump(flavour, ref)), None, fields)
+                try:
+                    a = flavoured(spec, case["flavour"])
+                    before = _snapshot(a)
+                    f = File()
+                    _put_struct(f, a, spec)
+                    data = _dump(flavour, f)
+                    if flavour == "bcif":
+                        _dump(flavour, pdbx.compress(f))
+                    if _snapshot(a) != before:
+                        hit(flavour, "argument_modified_by_set_structure", case["flavour"], "unchanged", "changed")
+                    got = _reads(_load(flavour, data), None, fields)
+                except Exception as e:  # noqa: BLE001
+                    if case["flavour"] in LENIENT_FLAVOURS:
+                        unspecified[0] = True
+                        continue
+                    hit(flavour, "raises_%s" % type(e).__name__, case["flavour"], "as for the plain array", str(e)[:200])
+                    continue
+                d = _first_diff(ref_reads, got)
+                if d is not None:
+                    hit(flavour, "read_differs:%s" % d, case["flavour"], "as for the plain array", d)
+            elif sub == "alias":
+                spec = flavour_base(case["stack"], case["pal"])
+                fields = _fields(None, spec)
+                if case["what"] == "argument_after_write":
+                    a = build(spec)
+                    f = File()
+                    _put_struct(f, a, spec)
+                    if case["compress"] and flavour == "bcif":
+                        f = pdbx.compress(f)
+                    _mutate_in_place(a)
+                    ref = File()
+                    _put(ref, spec)
+                    if case["compress"] and flavour == "bcif":
+                        ref = pdbx.compress(ref)
+                    d = _first_diff(_reads(_load(flavour, _dump(flavour, ref)), None, fields),
+                                    _reads(_load(flavour, _dump(flavour, f)), None, fields))
+                    if d is not None:
+                        hit(flavour, "file_follows_later_changes_of_the_structure_it_was_given:%s" % d,
+                            "compressed" if case["compress"] else "plain", "independent of the argument", d)
+                else:  # result of get_structure mutated in place
+                    f = File()
+                    _put(f, spec)
+                    if case["what"] == "result_of_parsed_file":
+                        f = _load(flavour, _dump(flavour, f))
+                    before_reads = _reads(f, None, fields)
+                    before_dump = _dump(flavour, f) if case["what"] == "result_of_parsed_file" else None
+                    r = pdbx.get_structure(f, model=None if case["stack"] else 1, include_bonds=True,
+                                           extra_fields=list(fields[0]))
+                    _mutate_in_place(r)
+                    d = _first_diff(before_reads, _reads(f, None, fields))
+                    if d is not None:
+                        hit(flavour, "file_follows_changes_of_the_structure_it_returned:%s" % d, case["what"],
+                            "independent of the result", d)
+                    # an independent result is demanded between two structures read from one file
+                    r1 = pdbx.get_structure(f, model=1, include_bonds=True, extra_fields=list(fields[0]))
+                    snap = _snapshot(r1)
+                    r2 = pdbx.get_structure(f, model=1, include_bonds=True, extra_fields=list(fields[0]))
+                    _mutate_in_place(r2)
+                    if _snapshot(r1) != snap and d is None:
+                        hit(flavour, "two_results_share_state", case["what"], "independent structures", "first changed")
+            elif sub == "many":
+                spec = many_spec(case)
+                fields = _fields(None, spec)
+                s_ = build(spec)
+                data = write_file(s_, flavour, True, [])
+                f = read_file(data, flavour)
+                m = len(spec["coord"])
+                for model in sorted({None, 1, 2 if m > 1 else 1, 9, 10, 11, m, -1, -m} - {0}, key=str):
+                    if model is not None and abs(model) > m:
+                        continue
+                    try:
+                        r = pdbx.get_structure(f, model=model, include_bonds=True, extra_fields=["atom_id"])
+                        d = compare(expected(spec, model=model), observe(r), flavour)
+                    except Exception as e:  # noqa: BLE001
+                        d = [("raises_" + type(e).__name__, "value", str(e)[:200])]
+                    for field, e_, o_ in d[:1]:
+                        hit(flavour, "differs_" + field, "%s=%s" % (case["what"], count_class(case["count"])),
+                            str(e_)[:300], str(o_)[:300])
+            elif sub == "order":
+                spec = order_spec(case)
+                res = roundtrip(spec, flavour)
+                for kind, (e_, o_) in expand_kinds(spec, res).items():
+                    hit(flavour, kind, case["what"], e_, o_)
+            elif sub == "lazy":
+                spec = flavour_base(case["stack"], case["pal"])
+                fields = _fields(None, spec)
+                f0 = File()
+                _put(f0, spec)
+                data = _dump(flavour, f0)
+                base = _reads(_load(flavour, data), None, fields)
+                f = _load(flavour, data)
+                twin = _load(flavour, data)
+                if case["eq_first"] and not (f == twin):
+                    hit(flavour, "parsed_files_of_one_text_unequal", "before_forcing", True, False)
+                for cat in case["force"]:
+                    f.block[cat]
+                    if case["deep"]:
+                        for col in f.block[cat].values():
+                            col.as_array()
+                d = _first_diff(base, _reads(f, None, fields))
+                if d is not None:
+                    hit(flavour, "read_differs:%s" % d, "after_forcing_categories", "as unforced", d)
+                if not (f == twin) or not (twin == f):
+                    hit(flavour, "parsed_files_of_one_text_unequal", "after_forcing_one", True, False)
+                d = _first_diff(base, _reads(_load(flavour, _dump(flavour, f)), None, fields))
+                if d is not None:
+                    hit(flavour, "read_differs:%s" % d, "reserialised_after_forcing", "as unforced", d)
+            elif sub == "errors":
+                spec = flavour_base(case["stack"], case["pal"])
+                fields = _fields(None, spec)
+                f = File()
+                _put(f, spec)
+                if case["parsed"]:
+                    f = _load(flavour, _dump(flavour, f))
+                base = _reads(f, None, fields)
+                dump0 = _dump(flavour, f)
+                m = len(spec["coord"])
+                extra_arg = list(fields[0])
+                kw = {"zero_model": {"model": 0}, "model_above": {"model": m + 1}, "model_below": {"model": -(m + 1)},
+                      "bad_altloc": {"altloc": "bogus"}, "missing_extra_field": {"extra_fields": ["no_such_column"]},
+                      "missing_block": {"data_block": "no_such_block"}}[case["refusal"]]
+                try:
+                    pdbx.get_structure(f, include_bonds=True, **{"extra_fields": extra_arg, **kw})
+                    hit(flavour, "not_refused", case["refusal"], "an exception", "returned")
+                except Exception:  # noqa: BLE001
+                    pass
+                if extra_arg != list(fields[0]):
+                    hit(flavour, "argument_modified_by_get_structure", "extra_fields", list(fields[0]), extra_arg)
+                d = _first_diff(base, _reads(f, None, fields))
+                if d is not None:
+                    hit(flavour, "read_differs_after_refused_get_structure:%s" % d, case["refusal"], "as before", d)
+                if _dump(flavour, f) != dump0:
+                    hit(flavour, "file_changed_by_refused_get_structure", case["refusal"], "same serialisation", "differs")
+            elif sub == "args":
+                # numpy scalars / other containers as arguments of get_structure: as the Python int / list
+                spec = flavour_base(1, case["pal"])
+                fields = _fields(None, spec)
+                f = File()
+                _put(f, spec)
+                f = _load(flavour, _dump(flavour, f))
+                plain = {"model": case["model"], "extra_fields": list(fields[0])}
+                conv = {"int64": np.int64, "int32": np.int32, "uint8": np.uint8, "int": int}[case["int_type"]]
+                other = {"model": None if case["model"] is None else conv(case["model"]),
+                         "extra_fields": {"tuple": tuple, "set": set, "ndarray": np.array, "list": list}[case["container"]](
+                             fields[0])}
+                outs = []
+                for kw in (plain, other):
+                    try:
+                        outs.append(["value", observe(pdbx.get_structure(f, include_bonds=True, **kw))])
+                    except Exception as e:  # noqa: BLE001
+                        outs.append(["raised", type(e).__name__])
+                if outs[1][0] == "raised" and case["container"] in ("set", "ndarray"):
+                    unspecified[0] = True  # the documentation says "list of str"
+                elif not _same(outs[0], outs[1]):
+                    hit(flavour, "result_depends_on_argument_type", "model:%s,extra_fields:%s" % (case["int_type"], case["container"]),
+                        outs[0][0], outs[1] if outs[1][0] == "raised" else _first_diff([outs[0]], [outs[1]]))
+            elif sub == "empty":
+                import biotite.structure as struc
+
+                if case["what"].startswith("depth0") or case["what"].startswith("length0"):
+                    st = struc.AtomArrayStack(0, 2) if case["what"].startswith("depth0") else struc.AtomArrayStack(2, 0)
+                    f = File()
+                    try:
+                        pdbx.set_structure(f, st)
+                        hit(flavour, "not_refused", case["what"], "BadStructureError", "returned")
+                    except struc.BadStructureError:
+                        pass
+                    except Exception as e:  # noqa: BLE001
+                        hit(flavour, "refused_with_%s" % type(e).__name__, case["what"], "BadStructureError", str(e)[:200])
+                    if len(f) != 0:
+                        hit(flavour, "file_changed_by_refused_call", case["what"], [], list(f.keys()))
+                else:
+                    spec = apply_devs(((2, 1), (0, 1)), PALETTES[case["pal"]], [["extra", None, "plain"]])
+                    col = {"chain_id": 0, "ins_code": 2, "res_name": 3, "atom_name": 5, "element": 6}.get(case["what"])
+                    if col is not None:
+                        for k, a in enumerate(spec["atoms"]):
+                            a[col] = ""
+                            if case["what"] in ("chain_id", "res_name"):
+                                a[1] = 10 + k  # residues stay uniquely identifiable through their ids
+                    else:
+                        spec["extra"] = [""] * len(spec["atoms"])
+                    res = roundtrip(spec, flavour)
+                    for kind, (e_, o_) in expand_kinds(spec, res).items():
+                        hit(flavour, kind, "all_values_empty:" + case["what"], e_, o_)
+            else:
+                raise ValueError(case)
+    ctx.ev(1, 1)
+    ctx.count("unspecified" if unspecified[0] else ("refused" if sub == "errors" else "accepted"))
+    ctx.outcome(("flavour", json.dumps(case, sort_keys=True), tuple(sorted(found))))
+    if len(ctx.samples) < 1:
+        ctx.sample(case)
+    for (failure, cls), ent in found.items():
+        fl = "all" if len(ent["fmts"]) == 2 else ent["fmts"][0]
+        if failure.startswith("bonds|"):
+            # same classes (and signatures) as in the other round-trip families
+            ctx.violation("roundtrip|%s|%s" % (fl, failure), "read-back bond set differs from the written one (%s)" % failure,
+                          case, ent["e"], ent["o"])
+            continue
+        ctx.violation("flavour|%s|%s|%s|%s" % (fl, sub, failure, cls),
+                      "%s: %s (%s)" % (sub, failure, cls), case, ent["e"], ent["o"])
+
+
+def count_class(n):
+    return {9: "9", 10: "10", 11: "11", 99: "99", 100: "100", 101: "101"}.get(n, "other")
+
+
+def many_spec(case):
+    """Many models / chains / residues: counts whose decimal width changes."""
+    n = case["count"]
+    what = case["what"]
+    if what == "models":
+        atoms = [["A", 1, "", "LIG", 1, "C1", "C"], ["A", 2, "", "LIG", 1, "C1", "C"]]
+        coord = [[[float(k), 0.5 * k + a, -1.25 * a] for a in range(2)] for k in range(n)]
+        return {"atoms": atoms, "coord": coord, "stack": True, "box": [BOXES["ortho"]] * n,
+                "opt": {"atom_id": [7, 3]}, "extra": None, "bonds": [[0, 1, 2]]}
+    atoms = []
+    for i in range(n):
+        if what == "chains_numeric":
+            atoms.append([str(i + 1), 1, "", "LIG", 1, "C1", "C"])
+        elif what == "chains_two_letters":
+            atoms.append([chr(65 + i // 26) + chr(65 + i % 26), 1, "", "LIG", 1, "C1", "C"])
+        elif what == "chains_mixed":
+            atoms.append(["C%d" % i if i % 2 else "c%dx" % i, 1, "", "LIG", 1, "C1", "C"])
+        else:  # residues of one chain
+            atoms.append(["A", i + 1, "", "LIG", 1, "C1", "C"])
+    coord = [[[1.5 * i, -0.25 * i, float(i % 5)] for i in range(n)]]
+    bonds = [[i, i + 1, BIG_TYPES[i % len(BIG_TYPES)]] for i in range(n - 1)] + [[0, n - 1, 1]]
+    return {"atoms": atoms, "coord": coord, "stack": False, "box": None, "opt": {"atom_id": list(range(n, 0, -1))},
+            "extra": None, "bonds": bonds}
+
+
+ORDER_RES = {"A1": ("A", 1, "ALA"), "A2": ("A", 2, "GLY"), "B1": ("B", 1, "SER"), "B2": ("B", 2, "ALA")}
+ROT_BOXES = {
+    "rot_z90": [[0.0, 10.5, 0.0], [-20.25, 3.25, 0.0], [-6.75, -4.5, 30.125]],
+    "axes_permuted": [[0.0, 0.0, 10.5], [0.0, 20.25, 3.25], [30.125, 6.75, -4.5]],
+    "left_handed": [[10.5, 0.0, 0.0], [3.25, 20.25, 0.0], [-4.5, 6.75, -30.125]],
+    "general_rotation": [[6.0, 6.0, 3.0], [-6.0, 3.0, 6.0], [6.0, -12.0, 12.0]],
+}
+
+
+def order_spec(case):
+    what = case["what"]
+    if what == "atom_order_in_residue":
+        names = [("N", "N"), ("CA", "C"), ("C", "C"), ("CB", "C")]
+        perm = case["perm"]
+        atoms = [["A", 5, "", "ALA", 0, names[k][0], names[k][1]] for k in perm]
+        pos = {names[k][0]: i for i, k in enumerate(perm)}
+        bonds = [[pos["N"], pos["CA"], 1], [pos["C"], pos["CA"], 1], [pos["CB"], pos["CA"], 1]]
+        coord = [[[1.5 * k, -k, 0.25 * k] for k in perm]]
+        return {"atoms": atoms, "coord": coord, "stack": False, "box": None, "opt": {}, "extra": None, "bonds": bonds}
+    if what == "residue_order":
+        atoms, bonds, idx = [], [], {}
+        for rname in case["perm"]:
+            ch, rid, comp = ORDER_RES[rname]
+            for an, el in (("N", "N"), ("CA", "C"), ("C", "C")):
+                idx[(rname, an)] = len(atoms)
+                atoms.append([ch, rid, "", comp, 0, an, el])
+        for rname in case["perm"]:
+            bonds.append([idx[(rname, "CA")], idx[(rname, "N")], 1])  # orientation (j, i) on purpose
+            bonds.append([idx[(rname, "CA")], idx[(rname, "C")], 1])
+        bonds.append([idx[("A2", "N")], idx[("A1", "C")], 1])
+        bonds.append([idx[("B1", "C")], idx[("B2", "N")], 1])
+        bonds.append([idx[("B2", "CA")], idx[("A1", "CA")], 2])
+        bonds.reverse()
+        coord = [[[0.5 * k, 2.0 - k, 0.125 * k] for k in range(len(atoms))]]
+        return {"atoms": atoms, "coord": coord, "stack": False, "box": None, "opt": {}, "extra": None, "bonds": bonds}
+    if what == "box_orientation":
+        spec = apply_devs(((2, 1), (0, 0)), PALETTES[0], [["models", None, 2]] if case["stack"] else [])
+        spec["box"] = [ROT_BOXES[case["box"]]] * len(spec["coord"])
+        return spec
+    raise ValueError(case)
+
+
+def flavour_cases(tier, seed):
+    pal = seed % len(PALETTES)
+    base = {"fam": "flavour", "pal": pal}
+    for name in FLAVOURS:
+        for stack in (0, 1):
+            yield {**base, "sub": "dtype", "flavour": name, "stack": stack}
+    for stack in (0, 1):
+        for compress in (0, 1):
+            yield {**base, "sub": "alias", "what": "argument_after_write", "stack": stack, "compress": compress}
+        for what in ("result_of_written_file", "result_of_parsed_file"):
+            yield {**base, "sub": "alias", "what": what, "stack": stack}
+    for what in ("models", "chains_numeric", "chains_two_letters", "chains_mixed", "residues"):
+        for n in (9, 10, 11, 99, 100, 101):
+            yield {**base, "sub": "many", "what": what, "count": n}
+    for perm in itertools.permutations(range(4)):
+        yield {**base, "sub": "order", "what": "atom_order_in_residue", "perm": list(perm)}
+    for perm in itertools.permutations(sorted(ORDER_RES)):
+        yield {**base, "sub": "order", "what": "residue_order", "perm": list(perm)}
+    for b in ROT_BOXES:
+        for stack in (0, 1):
+            yield {**base, "sub": "order", "what": "box_orientation", "box": b, "stack": stack}
+    cats = ["atom_site", "struct_conn", "chem_comp_bond", "cell"]
+    for k in range(len(cats) + 1):
+        for force in itertools.combinations(cats, k):
+            for deep in ((0, 1) if force else (0,)):
+                for eq_first in (0, 1):
+                    yield {**base, "sub": "lazy", "force": list(force), "deep": deep, "eq_first": eq_first, "stack": k % 2}
+    for model in (None, 1, 2, -1):
+        for int_type in ("int64", "int32", "uint8"):
+            if model is None and int_type != "int64" or (model == -1 and int_type == "uint8"):
+                continue
+            for container in ("list", "tuple", "set", "ndarray"):
+                yield {**base, "sub": "args", "model": model, "int_type": int_type, "container": container}
+    for what in ("chain_id", "ins_code", "res_name", "atom_name", "element", "extra", "depth0_stack", "length0_stack"):
+        yield {**base, "sub": "empty", "what": what}
+    for refusal in ("zero_model", "model_above", "model_below", "bad_altloc", "missing_extra_field", "missing_block"):
+        for stack in (0, 1):
+            for parsed in (0, 1):
+                yield {**base, "sub": "errors", "refusal": refusal, "stack": stack, "parsed": parsed}
+
+
 # ---- 'big': both sides of every size switch of the reader / writer -----------------------------
 # convert.py _find_matches(): (covalent struct_conn rows) x (atoms of the model) <= 4 000 000 -> dense
 # comparison matrix, above -> dictionary lookup.  Other count-dependent branches (one-row categories
@@ -2337,6 +2810,10 @@ def shards(tier, seed):
     parts = _chunks(nre, 100)
     for p in range(parts):
         out.append({"fam": "reuse", "part": p, "parts": parts, "w": 30 * nre // parts})
+    nfl = sum(1 for _ in flavour_cases(tier, seed))
+    parts = _chunks(nfl, 60)
+    for p in range(parts):
+        out.append({"fam": "flavour", "part": p, "parts": parts, "w": 40 * nfl // parts})
     for k, c in enumerate(big_cases(tier)):
         out.append({"fam": "big", "index": k, "w": 40000 if c["n_res"] < 10000 else 200000})
     out.sort(key=lambda s: -s.get("w", 0))
@@ -2370,6 +2847,10 @@ def run_shard(shard, ctx):
             nonuniq_case(ctx, case)
     elif fam == "big":
         big_case(ctx, big_cases(ctx.tier)[shard["index"]])
+    elif fam == "flavour":
+        for idx, case in enumerate(flavour_cases(ctx.tier, ctx.seed)):
+            if idx % shard["parts"] == shard["part"]:
+                flavour_case(ctx, case)
     elif fam == "reuse":
         for idx, case in enumerate(reuse_cases(ctx.tier, ctx.seed)):
             if idx % shard["parts"] == shard["part"]:
@@ -2401,6 +2882,8 @@ def replay(case, ctx):
         big_case(ctx, case)
     elif fam == "reuse":
         (refuse_case if case["kind"] == "refuse" else reuse_case)(ctx, case)
+    elif fam == "flavour":
+        flavour_case(ctx, case)
     else:
         raise ValueError(case)
 
@@ -2439,6 +2922,10 @@ def bounds(tier):
         "ropts": {"files": len(ROPT_VARIANTS), "models": "None, 1..m, -m..-1, 0, m+1, -(m+1), -(m+2)",
                   "altloc": 3, "use_author_fields": 2, "include_bonds": 2, "extra_fields": "every subset of 5 (4)"},
         "nonuniq": {"cases": sum(1 for _ in nonuniq_cases())},
+        "flavour": {"array_flavours": len(FLAVOURS), "counts": [9, 10, 11, 99, 100, 101],
+                    "many_of": ["models", "chains_numeric", "chains_two_letters", "chains_mixed", "residues"],
+                    "atom_orders": 24, "residue_orders": 24, "box_orientations": len(ROT_BOXES),
+                    "forced_category_subsets": 16, "cases": sum(1 for _ in flavour_cases(tier, 0))},
         "reuse": {"palette": len(REUSE_PALETTE), "kinds": list(REUSE_KINDS), "ordered_pairs": len(REUSE_PALETTE) ** 2,
                   "mid_read": 2, "refusals": list(REFUSALS)},
         "big": {"cases": len(big_cases(tier)), "atoms": "2000-2002" + (", 1250, 4000, 66000" if tier == "thorough" else ""),
@@ -2461,7 +2948,9 @@ RULE = (
     "the way it differs. sel / indep: case = one model-written table (text and BinaryCIF) x one option set; every "
     "call counts; the oracle is a per-residue recomputation from the get_structure documentation. ropts: one call "
     "per (written file, option set). reuse: case = (kind of reuse, first structure, last structure, read in between "
-    "or not) resp. (first structure, refused call, same / new block), each in text and BinaryCIF. big: case = (chain of N one- or two-atom residues, number q of inter-residue "
+    "or not) resp. (first structure, refused call, same / new block), each in text and BinaryCIF. flavour: case = "
+    "one value of one factor (array flavour, aliasing scenario, argument type, count, permutation, box orientation, "
+    "forced category subset, refused call) on a fixed structure, compared with the plain reference. big: case = (chain of N one- or two-atom residues, number q of inter-residue "
     "bonds incl. first-atom/last-atom bonds, array or 2-model stack), q x atoms chosen on both sides of "
     "FIND_MATCHES_SWITCH_THRESHOLD; complete comparison as in annot. Distinct outcomes = distinct (case, result) pairs resp. distinct decoded "
     "structures."
